@@ -3,6 +3,7 @@
 package fam
 
 import (
+	"crypto/rsa"
 	"bytes"
 	"encoding/base64"
 	"encoding/json"
@@ -59,6 +60,11 @@ const ccK = 8 // distinct argument sets per operation
 func ccSP() *saml2.SAMLServiceProvider {
 	sp := scSP()
 	sp.SignAuthnRequests = true
+	// the decryption key as an importer of key material builds it: modulus, exponents and primes, nothing precomputed
+	// (a fresh object per provider; whatever a call writes into it shows in the configuration digest)
+	w := world.Get()
+	k := w.SP.Key.(*rsa.PrivateKey)
+	sp.SPKeyStore = dsig.TLSCertKeyStore{Certificate: [][]byte{w.SP.DER}, PrivateKey: &rsa.PrivateKey{PublicKey: k.PublicKey, D: k.D, Primes: k.Primes}}
 	return sp
 }
 
